@@ -23,6 +23,7 @@ type Term struct {
 	S    string
 	Sort string
 	Ty   types.Type
+	Loc  *unsafeLoc // a pointer computed by the unsafe field-address pattern (kept with the value)
 }
 
 func (t Term) String() string { return t.S }
